@@ -208,7 +208,7 @@ PAIR = re.compile(r"\((\d+),\s*\((\d+),\s*(\d+)\)\)")
 def coq_eval_cases(cases_v, timeout=900):
     """coqc the generated case file (vm_compute inside); returns [(case, code, step)]."""
     d = os.path.dirname(cases_v)
-    p = sh(["timeout", str(timeout), "coqc", "-Q", COQ, "PT", os.path.basename(cases_v)], cwd=d, timeout=timeout + 30)
+    p = sh(["timeout", str(timeout), "coqc", "-noglob", "-Q", COQ, "PT", os.path.basename(cases_v)], cwd=d, timeout=timeout + 30)
     if p.returncode != 0:
         raise RuntimeError("coqc failed on %s:\n%s" % (cases_v, (p.stdout + p.stderr)[-3000:]))
     txt = p.stdout
